@@ -24,7 +24,7 @@ import signal
 import time
 
 from harness.lib import cfg, common, lr1dump
-from harness.translate import lr1_examples
+from harness.translate import lr1_examples, lr1_emboss_runs
 
 PROP = "C08"
 F10_KEY = "error-position-with-unproductive-nonterminal"
@@ -646,6 +646,7 @@ def run(tier):
                        "distinct grammar text that either reports conflicts or is conflict-free and then "
                        "validated + exhaustively compared on all strings up to the length bound")
     lr1_examples.regenerate()      # tie T: example tables from the real lr1.py
+    lr1_emboss_runs.regenerate()   # tie T: `run` equations on the shipped Emboss rows vs the real Parser.parse
     model_ok = common.proof_gate(chk, search)
     stats = new_stats()
     stats["tier"] = tier
